@@ -38,6 +38,10 @@ func implC12Refer(a []string) string {
 	// column 0 opens the vertical map over the whole row; the referred column ID stands at index j >= 1
 	names[0], types[0] = "Key", "map<uint32, Item>"
 	names[j], types[j] = "ID", "uint32"
+	if j >= 2 && (k+len(values))%3 == 0 {
+		// a blank-named column (a remark column) BEFORE the referred one: blank-named columns may stand anywhere
+		names[1], types[1] = "", ""
+	}
 	rowOf := func(id string, order []int) []string {
 		row := make([]string, k)
 		for pos, c := range order {
